@@ -1,6 +1,6 @@
 """C19 - util.cumsum writes exactly the selected partial sums for every length.
 
-Space (complete in both tiers): length 0..9 x (initial, final) x offset x dtype pairing x
+Space (complete in both tiers): length 0..9 and {255,256,65535,65537,131072} x (initial, final) x offset x dtype pairing x
 output length {right, right-1, right+1} x execution mode
   twin  : cumsum.py_func interpreted by CPython on numpy arrays (IndexError = out of bounds)
   comp  : the compiled dispatcher, arrays embedded in guard zones
@@ -12,7 +12,7 @@ import numpy as np
 
 PID = 'C19'
 LEVEL = 'exploration'
-RULE = ('full product length 0..9 x initial/final x offset {0,5,-3} x dtype pairs x out length {ok,-1,+1} x '
+RULE = ('full product length 0..9 and {255,256,65535,65537,131072} x initial/final x offset {0,5,-3} x dtype pairs x out length {ok,-1,+1} x '
         '{interpreted twin, compiled with guard zones, compiled with NUMBA_BOUNDSCHECK=1}; '
         'non-trivial = distinct (length, flags, offset, dtypes, out-length) with length>=1 or a flag set')
 ASSUMPTIONS = ['numpy.cumsum is the reference', 'N_out = N-1+initial+final defines the right output length',
@@ -31,14 +31,14 @@ def cases(tier, seed):
     for lens in ([1], [3, 0, 2], [100, 100, 100], [0, 300], [127, 1, 128, 1]):
         for dt in (None, 'int64', 'uint8', 'int16', 'float32', 'float64'):
             yield dict(kind='concat', lens=lens, dtype=dt)
-    for n in range(10):
+    for n in list(range(10)) + [255, 256, 65535, 65537, 1 << 17]:
         for ini, fin in itertools.product((False, True), repeat=2):
             for off in (0, 5, -3):
                 for din, dout in DT:
                     if off < 0 and dout.startswith('uint'):
                         continue
                     for dl in (0, -1, 1):
-                        for mode in ('twin', 'comp', 'bchk'):
+                        for mode in (('twin', 'comp', 'bchk') if n < 10 else ('comp', 'bchk')):
                             c = dict(n=n, ini=ini, fin=fin, off=off, din=din, dout=dout, dl=dl, mode=mode)
                             if mode == 'bchk':
                                 c['env'] = 'bchk'
@@ -70,7 +70,7 @@ def run(c):
         return run_concat(c)
     from abacusnbody.util import cumsum
     n, ini, fin, off = c['n'], c['ini'], c['fin'], c['off']
-    vals = [(3 * i * i + 2 * i + 1) % 11 + 1 for i in range(n)]
+    vals = ((3 * np.arange(n, dtype=np.int64) ** 2 + 2 * np.arange(n) + 1) % 11 + 1).tolist() if n >= 10 else [(3 * i * i + 2 * i + 1) % 11 + 1 for i in range(n)]
     nout = n - 1 + int(ini) + int(fin)
     m = nout + c['dl']
     probs = []
